@@ -478,7 +478,18 @@ func c08Mismatch(x *fleetExec, e engine.Event) {
 	if !nd.dirty {
 		var own []byte
 		x.lib("Encode", sig, func() { nd.real.Encode(&own, false) })
-		for k, data := range [][]byte{append(append([]byte(nil), own...), m.data...), append(append([]byte(nil), m.data...), own...)} {
+		streams := [][]byte{append(append([]byte(nil), own...), m.data...)}
+		// the other order lets the foreign frame's bins into a store of this node's kind before the refusal
+		fits := true
+		for _, side := range []*refmodel.RefStore{m.model.Pos, m.model.Neg} {
+			if b := side.Bins(); len(b) > 0 && b[len(b)-1].Index-b[0].Index+1 >= spanBudget(nd.spec.Store) {
+				fits = false
+			}
+		}
+		if fits {
+			streams = append(streams, append(append([]byte(nil), m.data...), own...))
+		}
+		for k, data := range streams {
 			_, derr := x.c08Decode(nd, data, c08FreshNil, sig)
 			if derr == nil {
 				x.fail("mapping-mismatch", sig, fmt.Sprintf("a stream holding two different mapping blocks (order %d) was decoded without error by a receiver without a mapping", k), "an error", "nil")
